@@ -92,6 +92,18 @@ def win_cases(seed, big):
                          for _ in range(rng.randint(0, 5))]
         out.append({"id": "w%d" % i, "kind": "win", "argv": argv})
         i += 1
+    # UTF-16 units that only LOOK like the special characters when narrowed to a byte: U+2122 (low byte 0x22, a
+    # quote), U+015C and U+215C (0x5C, a backslash), U+0120 (0x20, a blank), U+0109 (0x09, a tab), U+2100 (0x00)
+    look = [0x2122, 0x015C, 0x215C, 0x0120, 0x0109, 0x2100, 0x2022]
+    for u in look:
+        for w in ([u], [32, u], [u, 32], [97, u, 34], [92, u], [u, 92], [32, u, 92], [34, u, 34], [u, u], [32, 92, u, 92]):
+            out.append({"id": "w%d" % i, "kind": "win", "argv": [[97], w]})
+            i += 1
+    for _ in range(600 if big else 120):
+        argv = [[97]] + [[rng.choice(WIN_ALPHA + look + [92, 34, 32]) for _ in range(rng.randint(1, 12))]
+                         for _ in range(rng.randint(1, 3))]
+        out.append({"id": "w%d" % i, "kind": "win", "argv": argv})
+        i += 1
     # NUL anywhere is rejected
     for argv in ([[97], [0]], [[97], [97, 0, 98]], [[0]], [[97], [98], [99, 0]]):
         out.append({"id": "w%d" % i, "kind": "win", "argv": argv})
